@@ -6,35 +6,39 @@ import (
 	"fmt"
 	"go/types"
 	"strings"
+	"sync"
 
 	"golang.org/x/tools/go/ssa"
 )
 
 type Engine struct {
-	ld        *Loaded
-	specs     *SpecDB
-	decls     []Decl
-	declIdx   map[string]bool
-	structs   map[string]*structInfo // by sort name
-	freshN    int
-	typeIDs   map[string]int // dynamic type tags for interfaces
-	typeByID  map[int]types.Type
-	assumes   map[string]bool // global list of assumptions used (reported)
-	unmod     map[string]bool // unmodelled calls
-	inlined   map[string]bool
-	trusted   map[string]bool // external/trusted specs used
-	tier      string
-	timeoutMs int
-	seed      int
-	strLits   map[string]string
-	heapSorts map[string]Sort
+	ld               *Loaded
+	specs            *SpecDB
+	decls            []Decl
+	declIdx          map[string]bool
+	structs          map[string]*structInfo // by sort name
+	freshN           int
+	typeIDs          map[string]int // dynamic type tags for interfaces
+	typeByID         map[int]types.Type
+	assumes          map[string]bool // global list of assumptions used (reported)
+	unmod            map[string]bool // unmodelled calls
+	inlined          map[string]bool
+	trusted          map[string]bool // external/trusted specs used
+	tier             string
+	timeoutMs        int
+	seed             int
+	strLits          map[string]string
+	chanTypeIDs      map[string]int
+	chanTouch        map[*ssa.Function]int
+	chanMu           sync.Mutex
+	heapSorts        map[string]Sort
 	externParamTypes map[string]types.Type
-	loopCache map[*ssa.Function]map[*ssa.BasicBlock]*loopInfo
-	fnWriteCache map[*ssa.Function]*writeSet
-	fnWriteBusy  map[*ssa.Function]bool
-	litStrs   map[string]string
-	regions   map[string]int
-	fieldOfHeap map[string]string
+	loopCache        map[*ssa.Function]map[*ssa.BasicBlock]*loopInfo
+	fnWriteCache     map[*ssa.Function]*writeSet
+	fnWriteBusy      map[*ssa.Function]bool
+	litStrs          map[string]string
+	regions          map[string]int
+	fieldOfHeap      map[string]string
 }
 
 func NewEngine(ld *Loaded, specs *SpecDB) *Engine {
